@@ -6,9 +6,14 @@ A netlist description:
    'nodes':  [{'kind', 'ins': [ref..], 'outs': [w..], 'const': int}, ...]   combinational leaves  ref ['n', j, o]
    'regs':   [{'d': ref, 'w': int}, ...]     py4hw.Reg (clockable, not propagatable)              ref ['q', k]
    'order':  [['n', j] | ['r', k], ...]      INSTANTIATION order of the blocks
-   'split':  None | m                        the simulator is first requested after the first m blocks, then again at the end}
-kinds: buf not and2 or2 mux2 const catm catl bitsl (library leaves)  and  gate (a user-defined leaf: k inputs, m outputs,
-out_o = (xor of the inputs) + o + 1)."""
+   'split':  None | m | [m1, m2, ..]         BUILD - SIMULATE - EXTEND histories: the simulator is requested after the first m1
+                                             blocks, again after m2, ..., and at the end (the circuit is extended in between)}
+a node may carry 'box': b  -> it is instantiated INSIDE the user-defined structural block box<b> (created at its first member), so
+a later member extends an existing structural child and HWSystem.allLeaves() order differs from the instantiation order.
+kinds: buf not and2 or2 mux2 const catm catl bitsl xor2 (library blocks), gate (a user-defined leaf: k inputs, m outputs,
+out_o = (xor of the inputs) + o + 1), and isink / isrc: the same function, but the leaf is the sink / source of a py4hw.Interface:
+its outputs are the interface's back-channel (sink-to-source) / forward (source-to-sink) wires, and those of its inputs that no
+other interface owns are the interface's forward / back-channel wires (ports created by addInterfaceSink / addInterfaceSource)."""
 import common
 from common import quiet
 
@@ -29,8 +34,43 @@ def gate_class():
                 v = 0
                 for w in self.ins: v ^= w.get()
                 for k, w in enumerate(self.outs): w.put(v + k + 1)
-        _gate[0] = XorGate
+        class IfGate(py4hw.Logic):
+            """the same function behind a py4hw.Interface: role 'isink' -> addInterfaceSink, 'isrc' -> addInterfaceSource"""
+            def __init__(self, parent, name, role, itf, extra_ins, ins, outs):
+                super().__init__(parent, name)
+                if role == 'isink': self.addInterfaceSink('p', itf)
+                else: self.addInterfaceSource('p', itf)
+                for k, w in enumerate(extra_ins): self.addIn('x%d' % k, w)
+                self.ins, self.outs = list(ins), list(outs)
+
+            def propagate(self):
+                v = 0
+                for w in self.ins: v ^= w.get()
+                for k, w in enumerate(self.outs): w.put(v + k + 1)
+
+        class Box(py4hw.Logic):
+            """a structural block that only contains other blocks"""
+            def __init__(self, parent, name):
+                super().__init__(parent, name)
+        _gate[0] = XorGate; _gate.append(IfGate); _gate.append(Box)
     return _gate[0]
+
+
+IF_KINDS = ('isink', 'isrc')
+
+
+def ownership(spec):
+    """which py4hw.Interface creates which wire: {wire key: (owner node, 'fwd' | 'back')}.  An interface node owns its outputs
+    (back channel for a sink, forward wires for a source) and those of its inputs nobody claimed before (in node order)."""
+    own = {}
+    for j, nd in enumerate(spec['nodes']):
+        if nd['kind'] in IF_KINDS:
+            for o in range(len(nd['outs'])): own[('n', j, o)] = (j, 'back' if nd['kind'] == 'isink' else 'fwd')
+    for j, nd in enumerate(spec['nodes']):
+        if nd['kind'] in IF_KINDS:
+            for r in nd['ins']:
+                if rkey(r) not in own: own[rkey(r)] = (j, 'fwd' if nd['kind'] == 'isink' else 'back')
+    return own
 
 
 def rkey(ref):
@@ -46,17 +86,28 @@ class Net:
         with quiet():
             self.hw = py4hw.HWSystem()
         self.wire = {}
+        gate_class()
+        self.own = ownership(spec); self.itf = {}
+        def mk(key, name, w):
+            if key in self.own:
+                j, d = self.own[key]
+                if j not in self.itf: self.itf[j] = py4hw.Interface(self.hw, 'itf%d' % j)
+                return (self.itf[j].addSourceToSink if d == 'fwd' else self.itf[j].addSinkToSource)(name, w)
+            return self.hw.wire(name, w)
         for k, w in enumerate(spec['inputs']):
-            self.wire[('i', k)] = self.hw.wire('in%d' % k, w)
+            self.wire[('i', k)] = mk(('i', k), 'in%d' % k, w)
         for j, nd in enumerate(spec['nodes']):
+            if nd['kind'] in IF_KINDS and j not in self.itf: self.itf[j] = py4hw.Interface(self.hw, 'itf%d' % j)
             for o, w in enumerate(nd['outs']):
-                self.wire[('n', j, o)] = self.hw.wire('n%d_%d' % (j, o), w)
+                self.wire[('n', j, o)] = mk(('n', j, o), 'n%d_%d' % (j, o), w)
         for k, rg in enumerate(spec['regs']):
-            self.wire[('q', k)] = self.hw.wire('q%d' % k, rg['w'])
+            self.wire[('q', k)] = mk(('q', k), 'q%d' % k, rg['w'])
+        self.box = {}
         self.done = []                  # items instantiated so far, in order
         self.obj = {}                   # item -> py4hw object
         self.leaf_items = []            # combinational blocks in instantiation order (= leaf index when none is structural)
         self.has_struct = any(nd['kind'] == 'xor2' for nd in spec['nodes'])
+        self.has_box = any(nd.get('box') is not None for nd in spec['nodes'])
 
     def instantiate(self, items):
         py4hw, hw, W = self.py4hw, self.hw, self.wire
@@ -68,6 +119,11 @@ class Net:
                     self.obj[it] = py4hw.Reg(hw, 'r%d' % it[1], W[rkey(rg['d'])], W[('q', it[1])])
                 else:
                     j = it[1]; nd = self.spec['nodes'][j]; k = nd['kind']; name = 'u%d' % j
+                    top = hw
+                    if nd.get('box') is not None:
+                        b = nd['box']
+                        if b not in self.box: self.box[b] = _gate[2](top, 'box%d' % b)
+                        hw = self.box[b]
                     ins = [W[rkey(r)] for r in nd['ins']]
                     outs = [W[('n', j, o)] for o in range(len(nd['outs']))]
                     if k == 'buf': ob = py4hw.Buf(hw, name, ins[0], outs[0])
@@ -81,7 +137,14 @@ class Net:
                     elif k == 'bitsl': ob = py4hw.BitsLSBF(hw, name, ins[0], outs)
                     elif k == 'gate': ob = gate_class()(hw, name, ins, outs)
                     elif k == 'xor2': ob = py4hw.Xor2(hw, name, ins[0], ins[1], outs[0])      # structural: 4 Nand2 = 8 leaves
+                    elif k in IF_KINDS:
+                        via = (j, 'fwd' if k == 'isink' else 'back')       # in-refs that are ports of the interface itself
+                        extra = []
+                        for r in nd['ins']:
+                            if self.own.get(rkey(r)) != via and all(W[rkey(r)] is not x for x in extra): extra.append(W[rkey(r)])
+                        ob = _gate[1](hw, name, k, self.itf[j], extra, ins, outs)
                     else: raise ValueError(k)
+                    hw = top
                     self.obj[it] = ob
                     self.leaf_items.append(it)
                 self.done.append(it)
@@ -92,6 +155,24 @@ class Net:
         return [o for o in self.hw.allLeaves() if o.isPropagatable()]
 
     def live_graph(self):
+        """succ table over leaves(), read from the WIRES: leaf x feeds leaf y when a wire whose source port belongs to x has a sink
+        port that belongs to y (Wire.source / Wire.sinks; independent of how a block files its ports in inPorts / outPorts)"""
+        import netlist
+        leaves = self.leaves()
+        idx = {id(o): i for i, o in enumerate(leaves)}
+        tbl = [[] for _ in leaves]
+        seen = set()
+        for w in netlist.all_wires(self.hw) + [w for w in self.wire.values()]:
+            if id(w) in seen: continue
+            seen.add(id(w))
+            src = w.getSource() if hasattr(w, 'getSource') else None
+            if src is None or id(src.parent) not in idx: continue
+            for sp in w.getSinks():
+                if sp.parent.isPropagatable(): tbl[idx[id(src.parent)]].append(idx.get(id(sp.parent), -1))
+        return tbl
+
+    def code_graph(self):
+        """the same table read the way findFirstDependentPosition reads it (obj.outPorts -> wire.getSinks())"""
         leaves = self.leaves()
         idx = {id(o): i for i, o in enumerate(leaves)}
         tbl = []
@@ -104,6 +185,11 @@ class Net:
                         s.append(idx.get(id(sp.parent), -1))
             tbl.append(s)
         return tbl
+
+    def node_leaf_index(self):
+        """position in leaves() of each instantiated combinational block (None for structural ones)"""
+        idx = {id(o): i for i, o in enumerate(self.leaves())}
+        return [idx.get(id(self.obj[it])) for it in self.leaf_items]
 
     def all_leaves_order(self):
         """flat netlists: hw.allLeaves() restricted to propagatables, as block indices (must be 0..n-1: instantiation order)"""
@@ -195,7 +281,7 @@ def node_fn(nd, vals, widths):
         for x, w in seq: v = (v << w) | x
         r = [v]
     elif k == 'bitsl': r = [(vals[0] >> i) & 1 for i in range(len(outs))]
-    elif k == 'gate':
+    elif k in ('gate', 'isink', 'isrc'):
         v = 0
         for x in vals: v ^= x
         r = [v + o + 1 for o in range(len(outs))]
@@ -231,7 +317,7 @@ def denote(spec, present, base):
 
 
 # ------------------------------------------------------------------ generators
-def rand_netlist(rng, n, flavour='dag', n_in=2, n_regs=0, lib_only=True, struct=False):
+def rand_netlist(rng, n, flavour='dag', n_in=2, n_regs=0, lib_only=True, struct=False, itf=False, boxes=0):
     """random netlist whose combinational part is a DAG in the hidden order 0..n-1, then made cyclic / self-looping on
     request; instantiation order random (sometimes exactly reversed = worst case, sometimes dataflow order)."""
     spec = {'inputs': [rng.randint(1, 5) for _ in range(n_in)], 'nodes': [], 'regs': [], 'order': [], 'split': None}
@@ -244,6 +330,7 @@ def rand_netlist(rng, n, flavour='dag', n_in=2, n_regs=0, lib_only=True, struct=
         return list(rng.choice(pool_in))
     kinds = ['buf', 'not', 'and2', 'or2', 'and2', 'or2', 'mux2', 'const', 'catm', 'catl', 'bitsl'] + ([] if lib_only else ['gate', 'gate'])
     if struct: kinds += ['xor2', 'xor2']
+    if itf: kinds += ['isink', 'isink', 'isink', 'isrc']
     for j in range(n):
         k = rng.choice(kinds); nd = {'kind': k, 'ins': [], 'outs': [rng.randint(1, 5)], 'const': 0}
         if k in ('buf', 'not'): nd['ins'] = [pick()]
@@ -259,11 +346,12 @@ def rand_netlist(rng, n, flavour='dag', n_in=2, n_regs=0, lib_only=True, struct=
             r = pick()
             if ref_width(spec, r) > 4: nd['kind'] = 'buf'; nd['ins'] = [r]
             else: nd['ins'] = [r]; nd['outs'] = [1] * ref_width(spec, r)
-        elif k == 'gate':
-            nd['ins'] = [pick() for _ in range(rng.randint(0, 4))]; nd['outs'] = [rng.randint(1, 4) for _ in range(rng.randint(1, 3))]
+        elif k in ('gate', 'isink', 'isrc'):
+            nd['ins'] = [pick() for _ in range(rng.randint(0 if k == 'gate' else 1, 4))]; nd['outs'] = [rng.randint(1, 4) for _ in range(rng.randint(1, 3))]
         elif k == 'xor2':
             a = pick(); same = [r for r in pool_in + outs_so_far if ref_width(spec, r) == ref_width(spec, a)]
             nd['ins'] = [a, list(rng.choice(same))]; nd['outs'] = [ref_width(spec, a)]
+        if boxes and rng.random() < .6: nd['box'] = rng.randrange(boxes)
         spec['nodes'].append(nd)
         for o in range(len(nd['outs'])): outs_so_far.append(['n', j, o])
     for rg in spec['regs']:
@@ -273,7 +361,7 @@ def rand_netlist(rng, n, flavour='dag', n_in=2, n_regs=0, lib_only=True, struct=
     if m < .2: items.reverse()
     elif m < .9: rng.shuffle(items)
     spec['order'] = items
-    free = ('buf', 'not', 'and2', 'or2', 'mux2', 'gate', 'const')
+    free = ('buf', 'not', 'and2', 'or2', 'mux2', 'gate', 'const', 'isink', 'isrc')
     if flavour == 'cycle':
         # a back edge v -> u with u ->* v in the DAG closes a cycle through >= 2 leaves
         reach = [set() for _ in range(n)]
@@ -285,7 +373,7 @@ def rand_netlist(rng, n, flavour='dag', n_in=2, n_regs=0, lib_only=True, struct=
         if not cands: return None
         u, v = rng.choice(cands); nu = spec['nodes'][u]
         back = ['n', v, rng.randrange(len(spec['nodes'][v]['outs']))]
-        if nu['kind'] == 'gate' and not nu['ins']: nu['ins'] = [back]
+        if nu['kind'] in ('gate', 'isink', 'isrc') and not nu['ins']: nu['ins'] = [back]
         elif nu['kind'] == 'const': nu['kind'] = 'buf'; nu['ins'] = [back]
         else: nu['ins'][rng.randrange(len(nu['ins']))] = back
     elif flavour == 'selfloop':
@@ -293,19 +381,19 @@ def rand_netlist(rng, n, flavour='dag', n_in=2, n_regs=0, lib_only=True, struct=
         if not cands: return None
         u = rng.choice(cands); nu = spec['nodes'][u]
         back = ['n', u, rng.randrange(len(nu['outs']))]
-        if nu['kind'] == 'gate' and not nu['ins']: nu['ins'] = [back]
+        if nu['kind'] in ('gate', 'isink', 'isrc') and not nu['ins']: nu['ins'] = [back]
         elif nu['kind'] == 'const': nu['kind'] = 'buf'; nu['ins'] = [back]
         else: nu['ins'][rng.randrange(len(nu['ins']))] = back
     return spec
 
 
-def tiny_graph(n, edges):
+def tiny_graph(n, edges, variant=0):
     """the labelled digraph `edges` (set of (i, j): leaf j reads leaf i) as a netlist of user-defined leaves instantiated
     in label order; every leaf also reads the primary input so values move"""
     spec = {'inputs': [3], 'nodes': [], 'regs': [], 'order': [['n', j] for j in range(n)], 'split': None}
     for j in range(n):
         ins = [['n', i, 0] for i in range(n) if (i, j) in edges] + [['i', 0]]
-        spec['nodes'].append({'kind': 'gate', 'ins': ins, 'outs': [3], 'const': 0})
+        spec['nodes'].append({'kind': 'isink' if (variant and j % 2 == 1) else 'gate', 'ins': ins, 'outs': [3], 'const': 0})
     return spec
 
 
